@@ -90,3 +90,33 @@ int main(int argc, char** argv) {
     return 0;
 }
 #endif
+
+#ifdef RAW_TSAN_MAIN
+// stdin: the same record format as the driver; every record is one batch. argv[1] = rounds. All batches are decoded sequentially
+// (reference), then `rounds` times concurrently, one thread per batch; exit 1 when a concurrent result differs.
+#include <thread>
+int main(int argc, char** argv) {
+    int rounds = argc > 1 ? atoi(argv[1]) : 4;
+    std::vector<std::vector<uint32_t>> bufs;
+    std::vector<int> masks;
+    while (true) {
+        uint32_t hdr[2];
+        if (fread(hdr, 4, 2, stdin) != 2) break;
+        std::vector<uint32_t> buf(hdr[0]);
+        if (hdr[0] && fread(buf.data(), 4, hdr[0], stdin) != hdr[0]) break;
+        bufs.push_back(buf); masks.push_back((int)hdr[1]);
+    }
+    std::vector<std::string> ref(bufs.size());
+    for (size_t i = 0; i < bufs.size(); i++) ref[i] = run_one(bufs[i].data(), bufs[i].size(), masks[i]);
+    int bad = 0;
+    for (int r = 0; r < rounds; r++) {
+        std::vector<std::string> got(bufs.size());
+        std::vector<std::thread> ths;
+        for (size_t i = 0; i < bufs.size(); i++) ths.emplace_back([&, i] { got[i] = run_one(bufs[i].data(), bufs[i].size(), masks[i]); });
+        for (auto& t : ths) t.join();
+        for (size_t i = 0; i < bufs.size(); i++) if (got[i] != ref[i]) { printf("MISMATCH round %d batch %zu\n", r, i); bad = 1; }
+    }
+    printf(bad ? "DIFFER\n" : "EQUAL\n");
+    return bad;
+}
+#endif
